@@ -8,6 +8,7 @@ import (
 	"fmt"
 	"os"
 	"path/filepath"
+	"reflect"
 	"sort"
 	"strconv"
 	"strings"
@@ -39,6 +40,8 @@ type JobDef struct {
 	MayBeVacuous bool `json:"may_be_vacuous,omitempty"`
 	// ReplaySamples: how many passing samples of this job definition are replayed natively (default 2)
 	ReplaySamples int `json:"replay_samples,omitempty"`
+	// Cross: decide this job a second time with the check's cross_solver and compare
+	Cross bool `json:"cross,omitempty"`
 }
 
 type CheckDef struct {
@@ -49,6 +52,8 @@ type CheckDef struct {
 	Assumptions []string `json:"assumptions"`
 	Outside     []string `json:"outside_claim"`
 	Units       []string `json:"units"`
+	// CrossSolver: second solver for the jobs marked "cross" (z3-new | cvc5)
+	CrossSolver string `json:"cross_solver,omitempty"`
 }
 
 type KnownFinding struct {
@@ -203,62 +208,99 @@ func cmdCheck(args []string) int {
 	}
 
 	// run
-	results := make([]*JobResult, len(items))
-	var next int
-	var mu sync.Mutex
-	var wg sync.WaitGroup
 	var totQueries, totSat, totUnsat, totUnknown int
 	var solverTime time.Duration
 	var solverErrors []string
-	nw := *workers
-	if nw > len(items) {
-		nw = len(items)
-	}
-	for wi := 0; wi < nw; wi++ {
-		wg.Add(1)
-		go func(wi int) {
-			defer wg.Done()
-			var w *Worker
-			var curDef *JobDef
-			flush := func() {
-				if w != nil {
+	runAll := func(solverName string, only func(*JobDef) bool) []*JobResult {
+		results := make([]*JobResult, len(items))
+		var next int
+		var mu sync.Mutex
+		var wg sync.WaitGroup
+		nw := *workers
+		if nw > len(items) {
+			nw = len(items)
+		}
+		for wi := 0; wi < nw; wi++ {
+			wg.Add(1)
+			go func(wi int) {
+				defer wg.Done()
+				var w *Worker
+				var curDef *JobDef
+				flush := func() {
+					if w != nil {
+						mu.Lock()
+						totQueries += w.solver.Queries
+						totSat += w.solver.NSat
+						totUnsat += w.solver.NUnsat
+						totUnknown += w.solver.NUnknown
+						solverTime += w.solver.Time
+						solverErrors = append(solverErrors, w.solver.Errors...)
+						mu.Unlock()
+						w.solver.Close()
+						w = nil
+					}
+				}
+				defer flush()
+				for {
 					mu.Lock()
-					totQueries += w.solver.Queries
-					totSat += w.solver.NSat
-					totUnsat += w.solver.NUnsat
-					totUnknown += w.solver.NUnknown
-					solverTime += w.solver.Time
-					solverErrors = append(solverErrors, w.solver.Errors...)
+					i := next
+					next++
 					mu.Unlock()
-					w.solver.Close()
-					w = nil
-				}
-			}
-			defer flush()
-			for {
-				mu.Lock()
-				i := next
-				next++
-				mu.Unlock()
-				if i >= len(items) {
-					return
-				}
-				it := items[i]
-				if w == nil || curDef != it.def {
-					flush()
-					var err error
-					w, err = NewWorker(prog, wi, cfgFor(it.def, *solver))
-					if err != nil {
-						results[i] = &JobResult{Spec: it.spec, Inconclusive: map[string]int{"solver start failed: " + err.Error(): 1}}
+					if i >= len(items) {
+						return
+					}
+					it := items[i]
+					if only != nil && !only(it.def) {
 						continue
 					}
-					curDef = it.def
+					if w == nil || curDef != it.def {
+						flush()
+						var err error
+						w, err = NewWorker(prog, wi, cfgFor(it.def, solverName))
+						if err != nil {
+							results[i] = &JobResult{Spec: it.spec, Inconclusive: map[string]int{"solver start failed: " + err.Error(): 1}}
+							continue
+						}
+						curDef = it.def
+					}
+					results[i] = w.runJob(it.spec)
 				}
-				results[i] = w.runJob(it.spec)
-			}
-		}(wi)
+			}(wi)
+		}
+		wg.Wait()
+		return results
 	}
-	wg.Wait()
+	results := runAll(*solver, nil)
+	mainQueries, mainSat, mainUnsat, mainUnknown := totQueries, totSat, totUnsat, totUnknown
+
+	// second opinion: the jobs marked "cross" are decided again with another solver and the
+	// verdicts compared job by job (paths, infeasible prunings, assertions discharged,
+	// violations); a disagreement is reported as undecided
+	crossInfo := map[string]interface{}{}
+	var crossDisagree []string
+	if cs := def.CrossSolver; cs != "" && cs != *solver {
+		t0 := time.Now()
+		res2 := runAll(cs, func(d *JobDef) bool { return d.Cross })
+		n := 0
+		for i, r2 := range res2 {
+			r1 := results[i]
+			if r2 == nil || r1 == nil {
+				continue
+			}
+			n++
+			same := r1.Paths == r2.Paths && r1.PathsDone == r2.PathsDone && r1.Infeasible == r2.Infeasible &&
+				fmt.Sprint(r1.AssertChecked) == fmt.Sprint(r2.AssertChecked) && fmt.Sprint(r1.ViolationCount) == fmt.Sprint(r2.ViolationCount) &&
+				fmt.Sprint(r1.Inconclusive) == fmt.Sprint(r2.Inconclusive)
+			if !same {
+				crossDisagree = append(crossDisagree, fmt.Sprintf("%s%v: %s paths=%d done=%d infeasible=%d unsat=%v viol=%v inconclusive=%v / %s paths=%d done=%d infeasible=%d unsat=%v viol=%v inconclusive=%v",
+					r1.Spec.Harness, r1.Spec.Params, *solver, r1.Paths, r1.PathsDone, r1.Infeasible, r1.AssertChecked, r1.ViolationCount, r1.Inconclusive,
+					cs, r2.Paths, r2.PathsDone, r2.Infeasible, r2.AssertChecked, r2.ViolationCount, r2.Inconclusive))
+			}
+		}
+		crossInfo = map[string]interface{}{"solver": cs, "jobs_compared": n, "disagreements": crossDisagree, "wall_s": time.Since(t0).Seconds(),
+			"queries": totQueries - mainQueries, "sat": totSat - mainSat, "unsat": totUnsat - mainUnsat, "unknown": totUnknown - mainUnknown}
+		totQueries, totSat, totUnsat, totUnknown = mainQueries, mainSat, mainUnsat, mainUnknown
+	}
 
 	// aggregate
 	type agg struct {
@@ -268,16 +310,27 @@ func cmdCheck(args []string) int {
 	}
 	var A agg
 	inconc := map[string]int{}
+	for _, d := range crossDisagree {
+		inconc["solver disagreement: "+d] = 1
+	}
 	var violations []*Violation
 	var samples []map[string]interface{}
 	vacuous := []string{}
 	perHarness := map[string]map[string]int{}
 	samplesPerHarness := map[string]int{}
 	replayWanted := map[string]int{}
+	type slowJob struct {
+		Job    string  `json:"job"`
+		WallS  float64 `json:"wall_s"`
+		Paths  int     `json:"paths"`
+		CapHit bool    `json:"time_box_or_cap_hit,omitempty"`
+	}
+	var slow []slowJob
 	for i, r := range results {
 		if r == nil {
 			continue
 		}
+		slow = append(slow, slowJob{fmt.Sprintf("%s%v", r.Spec.Harness, r.Spec.Params), r.Wall.Seconds(), r.Paths, r.CapHit})
 		A.paths += r.Paths
 		A.done += r.PathsDone
 		A.decisions += r.Decisions
@@ -542,6 +595,8 @@ func cmdCheck(args []string) int {
 			"samples":                       samples,
 			"exhaustive":                    len(inconc) == 0,
 			"technique":                     "bounded symbolic execution of go/ssa of the current tree; SMT (z3) decides every assertion and branch",
+			"slowest_jobs":                  slowest(slow),
+			"second_solver":                 crossInfo,
 			"functions_encoded":             filterFns(prog.encodedFunctions()),
 			"units":                         def.Units,
 			"bounds":                        def.Bounds,
@@ -578,7 +633,30 @@ func cmdCheck(args []string) int {
 	if exit == 0 && len(vacuous) > 0 {
 		return 2
 	}
+	if exit == 0 && len(inconc) > 0 {
+		// part of the stated bound was not decided (time box, a construct the encoder
+		// does not model, or a counterexample that did not replay): not a success
+		fmt.Printf("UNDECIDED property=%s: %d part(s) of the stated bound were not decided; see the INCONCLUSIVE lines\n", id, len(inconc))
+		return 3
+	}
 	return exit
+}
+
+// slowest returns the five slowest jobs (how close the run came to the per-job time box).
+func slowest(x interface{}) interface{} {
+	v := reflect.ValueOf(x)
+	idx := make([]int, v.Len())
+	for i := range idx {
+		idx[i] = i
+	}
+	sort.Slice(idx, func(a, b int) bool {
+		return v.Index(idx[a]).FieldByName("WallS").Float() > v.Index(idx[b]).FieldByName("WallS").Float()
+	})
+	var out []interface{}
+	for i := 0; i < len(idx) && i < 5; i++ {
+		out = append(out, v.Index(idx[i]).Interface())
+	}
+	return out
 }
 
 func knownLines(ls []string) []string {
